@@ -1254,6 +1254,8 @@ var ruleLineStart = &Rule{
 			return false
 		}
 		n := 0
+		nArith := 0
+		_ = nArith
 		for _, f := range c.ModFns() {
 			if f.Pkg == nil || f.Pkg.Pkg.Path() != lexerPkgPath {
 				continue
@@ -1271,7 +1273,18 @@ var ruleLineStart = &Rule{
 					}
 					ld, ok := st.Val.(*ssa.UnOp)
 					if !ok {
-						continue // arithmetic on the cursor (or a constant): not the exact cursor
+						// arithmetic on the cursor: the cursor counts characters, so what is added to / subtracted from it
+						// must count characters too — never a byte offset into the input
+						if bo, isB := st.Val.(*ssa.BinOp); isB && (bo.Op == token.ADD || bo.Op == token.SUB) {
+							for _, x := range []ssa.Value{bo.X, bo.Y} {
+								if off, isOff := byteOffsetIntoChunk(f, x); isOff {
+									nArith++
+									obs = append(obs, Ob{Key: fmt.Sprintf("LOC/line-start:%s:byte-offset", f.Name()), Site: c.Pos(st.Pos()), Verdict: VIOLATION,
+										Note: f.Name() + " computes the start of the line from the cursor (characters) and " + off + " (a byte offset into the input: it is used to index the input): multi-byte characters before it shift the columns of the whole line"})
+								}
+							}
+						}
+						continue
 					}
 					fa2, ok := ld.X.(*ssa.FieldAddr)
 					if !ok || fieldOf(fa2).Name() != "currentPos" {
@@ -1462,4 +1475,51 @@ var ruleRenR3 = &Rule{
 		return []Ob{{Key: key, Site: c.Pos(rn.Pos()), Verdict: VIOLATION,
 			Note: "neither does the rename mode reach the reference traversal nor does TextDocumentRename compare the text under a range with the old name: `self` tokens that stand for the renamed table are overwritten with the new name"}}
 	},
+}
+
+// byteOffsetIntoChunk: v is (a load of) an integer variable that this function also uses as an index or slice bound of
+// the lexer's input: a byte offset
+func byteOffsetIntoChunk(f *ssa.Function, v ssa.Value) (string, bool) {
+	cellOf := func(x ssa.Value) ssa.Value { // the variable behind a load
+		if ld, ok := x.(*ssa.UnOp); ok && ld.Op == token.MUL {
+			switch ld.X.(type) {
+			case *ssa.Parameter, *ssa.Alloc:
+				return ld.X
+			}
+		}
+		return nil
+	}
+	target := cellOf(v)
+	same := func(x ssa.Value) bool {
+		if x == nil {
+			return false
+		}
+		if x == v {
+			return true
+		}
+		return target != nil && cellOf(x) == target
+	}
+	isChunk := func(x ssa.Value) bool {
+		ld, ok := x.(*ssa.UnOp)
+		if !ok || ld.Op != token.MUL {
+			return false
+		}
+		fa, ok := ld.X.(*ssa.FieldAddr)
+		return ok && fieldOf(fa).Name() == "chunk"
+	}
+	for _, b := range f.Blocks {
+		for _, ins := range b.Instrs {
+			switch x := ins.(type) {
+			case *ssa.Index:
+				if isChunk(x.X) && same(x.Index) {
+					return describeValue(v), true
+				}
+			case *ssa.Slice:
+				if isChunk(x.X) && (same(x.Low) || same(x.High)) {
+					return describeValue(v), true
+				}
+			}
+		}
+	}
+	return "", false
 }
